@@ -867,7 +867,11 @@ func (p *parser) parseConditionalExpression() ast.Expression {
 		}
 		p.next()
 
+		// The middle operand is a plain AssignmentExpression even in the NoIn variant (ES5 11.12).
+		allowIn := p.scope.allowIn
+		p.scope.allowIn = true
 		consequent := p.parseAssignmentExpression()
+		p.scope.allowIn = allowIn
 		if p.mode&StoreComments != 0 {
 			p.comments.Unset()
 		}
